@@ -25,7 +25,7 @@ int World::exec_abuse(const Op &op) {
     const int *a = op.a;
     Rng r(op.sub);
     int calls = 0, threw = 0;
-    int sel = ((unsigned) a[2]) % 12;
+    int sel = ((unsigned) a[2]) % 14;
     switch (op.kind) {
     case OP_abuse_array: {
         DataArray x = arr_at(a[0], a[1]); if (!x) return 2;
@@ -57,6 +57,17 @@ int World::exec_abuse(const Op &op) {
                   calls++; try { DataView v = util::dataSlice(x, st, en, un, RangeMatch::Inclusive); read_view(v); } catch (const std::exception &) { threw++; }
                   ATTEMPT((void) util::positionInData(x, NDSize(rank + 1, 0))); ATTEMPT((void) util::positionAndExtentInData(x, NDSize(rank, 0), NDSize(rank ? rank - 1 : 0, 1)));
                   break; }
+        case 11: case 12: {
+            // reads of the whole array (raw and, when a polynomial / origin is set, calibrated) into exactly-sized heap buffers of every
+            // element type: a byte written past the requested elements lands in a red zone
+            if (!rank || ext.nelms() == 0 || ext.nelms() > 512 || dt == DataType::String) break;
+            static const DataType ts[] = {DataType::Bool, DataType::Int8, DataType::Int16, DataType::Int32, DataType::Int64, DataType::UInt8, DataType::UInt16, DataType::UInt32, DataType::UInt64, DataType::Float, DataType::Double};
+            for (DataType t : ts) {
+                std::unique_ptr<char[]> hb(new char[(size_t) ext.nelms() * data_type_to_size(t)]);
+                ATTEMPT(x.getData(t, hb.get(), ext, NDSize(rank, 0)));
+                if (sel == 12) ATTEMPT(x.getDataDirect(t, hb.get(), ext, NDSize(rank, 0)));
+            }
+            break; }
         default: { ATTEMPT((void) x.getDimension((ndsize_t) -1)); std::vector<double> v; ATTEMPT(x.getData(v, nd({0}), nd({0}))); ATTEMPT(x.getData(v, nd({(ndsize_t) 100000}), nd({0}))); break; }
         }
         break;
@@ -129,6 +140,79 @@ int World::exec_abuse(const Op &op) {
             ATTEMPT((void) t.hasFeature(std::string("other")));
             if (nr) { DataArray ref = t.getReference((size_t) 0); NDSize o, c; ATTEMPT(util::getOffsetAndCount(t, ref, o, c)); ATTEMPT(util::getOffsetAndCount(t, ref, o, c, RangeMatch::Exclusive)); }
         }
+        break;
+    }
+    case OP_abuse_tagging: {
+        // A complete tagging set-up built in one step and then queried: a data array of rank 1-3 with a random mix of dimension
+        // descriptors (or too few of them), a positions array that is 1-D or n x k with k below, at or above the data rank, extents
+        // of the same or no shape, features of every link type; then region retrieval for every position index including one past
+        // the end.  Nothing is predicted: every call returns or throws, the sanitizers watch.
+        Block b = blk(a[0]); if (!b) return 2;
+        std::string base = "tg" + std::to_string(session) + "_" + std::to_string(cur) + "_" + std::to_string(r.below(1000));
+        size_t rank = (size_t) r.range(1, 3);
+        NDSize shape(rank, 1); for (size_t d = 0; d < rank; d++) shape[d] = (ndsize_t) r.range(1, 5);
+        arg_class = "rank=" + std::to_string(rank);
+        DataArray data, pos, ext, fa;
+        ATTEMPT(data = b.createDataArray(base + "_d", "t", r.chance(1, 4) ? DataType::Int16 : DataType::Double, shape));
+        if (!data) break;
+        size_t ndesc = r.chance(1, 5) ? (size_t) r.below(rank + 1) : rank;
+        for (size_t d = 0; d < ndesc; d++) {
+            int k = r.range(0, 3);
+            if (k == 0) ATTEMPT(data.appendSampledDimension(r.chance(1, 2) ? 1.0 : 0.25, "t", r.chance(1, 2) ? "ms" : "", r.chance(1, 3) ? 1.0 : 0.0));
+            else if (k == 1) { std::vector<double> tk; double v = (double) r.range(-1, 1); size_t nt = r.chance(1, 4) ? (size_t) r.range(1, 6) : (size_t) shape[d]; for (size_t i = 0; i < nt; i++) { tk.push_back(v); v += 0.5 * (double) r.range(1, 3); } ATTEMPT(data.appendRangeDimension(tk, "x", r.chance(1, 2) ? "mV" : "")); }
+            else if (k == 2) { std::vector<std::string> l; size_t nl = r.chance(1, 3) ? (size_t) r.range(0, 6) : (size_t) shape[d]; for (size_t i = 0; i < nl; i++) l.push_back("l" + std::to_string(i)); ATTEMPT(data.appendSetDimension(l)); }
+            else ATTEMPT(data.appendSetDimension());
+        }
+        if (shape.nelms() <= 200) { std::vector<double> v((size_t) shape.nelms()); for (size_t i = 0; i < v.size(); i++) v[i] = (double) (i % 50); ATTEMPT(data.setData(DataType::Double, v.data(), shape, NDSize(rank, 0))); }
+        size_t n = (size_t) r.range(1, 4);
+        int kvar = r.range(0, 5);
+        size_t k = kvar == 0 ? 0 : kvar == 1 ? 1 : kvar == 2 ? (rank > 1 ? rank - 1 : 1) : kvar == 3 ? rank + 1 : rank;     // 0 = 1-D positions
+        arg_class += ",pos=" + (k == 0 ? std::string("1d") : "nx" + std::to_string(k));
+        NDSize pshape = k == 0 ? nd({(ndsize_t) n}) : nd({(ndsize_t) n, (ndsize_t) k});
+        std::vector<double> pv((size_t) pshape.nelms()), ev((size_t) pshape.nelms());
+        for (auto &x : pv) x = 0.5 * (double) r.range(-2, 8);
+        for (auto &x : ev) x = 0.5 * (double) r.range(0, 6);
+        ATTEMPT(pos = b.createDataArray(base + "_p", "t", DataType::Double, pshape));
+        if (pos) ATTEMPT(pos.setData(DataType::Double, pv.data(), pshape, NDSize(pshape.size(), 0)));
+        int evar = r.range(0, 3);
+        if (evar) {
+            NDSize eshape = pshape;
+            if (evar == 3 && eshape.size()) eshape[eshape.size() - 1] += 1;      // mismatching shape: the setter is expected to refuse
+            ATTEMPT(ext = b.createDataArray(base + "_e", "t", DataType::Double, eshape));
+            if (ext && evar != 3) ATTEMPT(ext.setData(DataType::Double, ev.data(), eshape, NDSize(eshape.size(), 0)));
+        }
+        NDSize fshape = shape; if (r.chance(1, 2)) { if (r.chance(1, 2)) fshape = nd({(ndsize_t) n, (ndsize_t) 3}); else fshape = nd({(ndsize_t) r.range(1, 3)}); }
+        ATTEMPT(fa = b.createDataArray(base + "_f", "t", DataType::Double, fshape));
+        if (fa && r.chance(1, 2)) for (size_t d = 0; d < fshape.size(); d++) ATTEMPT(fa.appendSampledDimension(1.0));
+        MultiTag mt;
+        if (pos) ATTEMPT(mt = b.createMultiTag(base + "_m", "t", pos));
+        if (mt) {
+            if (ext) ATTEMPT(mt.extents(ext));
+            ATTEMPT(mt.addReference(data));
+            if (r.chance(1, 3)) { std::vector<std::string> u; size_t nu = (size_t) r.range(0, (int) rank + 1); for (size_t i = 0; i < nu; i++) u.push_back(r.chance(1, 2) ? "ms" : "mV"); ATTEMPT(mt.units(u)); }
+            if (fa) { ATTEMPT(mt.createFeature(fa, LinkType::Tagged)); ATTEMPT(mt.createFeature(fa, LinkType::Indexed)); ATTEMPT(mt.createFeature(fa, LinkType::Untagged)); }
+            for (size_t i = 0; i <= n; i++) {
+                calls++; try { DataView v = mt.taggedData(i, (size_t) 0); read_view(v); } catch (const std::exception &) { threw++; }
+                calls++; try { DataView v = util::taggedData(mt, (ndsize_t) i, (ndsize_t) 0, RangeMatch::Exclusive); read_view(v); } catch (const std::exception &) { threw++; }
+                for (size_t fi = 0; fi < 3; fi++) { calls++; try { DataView v = mt.featureData(i, fi); read_view(v); } catch (const std::exception &) { threw++; } }
+            }
+            calls++; try { std::vector<ndsize_t> idx; for (size_t i = 0; i < n; i++) idx.push_back(i); std::vector<DataView> vs = mt.taggedData(idx, (size_t) 0); for (auto &v : vs) read_view(v); } catch (const std::exception &) { threw++; }
+        }
+        Tag t;
+        size_t kp = k == 0 ? 1 : k;
+        std::vector<double> tp(kp), te(r.chance(1, 3) ? 0 : (r.chance(1, 4) ? kp + 1 : kp));
+        for (auto &x : tp) x = 0.5 * (double) r.range(-2, 8);
+        for (auto &x : te) x = 0.5 * (double) r.range(0, 6);
+        ATTEMPT(t = b.createTag(base + "_t", "t", tp));
+        if (t) {
+            if (!te.empty()) ATTEMPT(t.extent(te));
+            ATTEMPT(t.addReference(data));
+            if (fa) { ATTEMPT(t.createFeature(fa, LinkType::Tagged)); ATTEMPT(t.createFeature(fa, LinkType::Indexed)); ATTEMPT(t.createFeature(fa, LinkType::Untagged)); }
+            calls++; try { DataView v = t.taggedData((size_t) 0); read_view(v); } catch (const std::exception &) { threw++; }
+            calls++; try { DataView v = util::taggedData(t, (ndsize_t) 0, RangeMatch::Exclusive); read_view(v); } catch (const std::exception &) { threw++; }
+            for (size_t fi = 0; fi < 3; fi++) { calls++; try { DataView v = t.featureData(fi); read_view(v); } catch (const std::exception &) { threw++; } }
+        }
+        cnt.inc("abuse.tagging_setups");
         break;
     }
     case OP_abuse_none: {
